@@ -61,6 +61,9 @@ SERVER_INFO = {
     # stream 1 open, then the application closed the connection (GOAWAY with last-stream-id 1 is out): whatever still arrives is
     # an error on a closed connection, and a later GOAWAY never names a higher stream than the first one did (RFC 7540 6.8)
     "closed-by-us": (1, 1, None, 3),
+    # the same, closed with the "shutdown notice" form close_connection(last_stream_id=2^31-1): the GOAWAY of a later error
+    # names the highest stream the peer has opened, not the placeholder
+    "closed-by-us-with-notice": (1, 1, None, 3),
 }
 CLIENT_INFO = {
     "fresh": (0, None, None, None), "handshaken": (0, None, None, None),
@@ -135,7 +138,7 @@ def _build_extra(client, name, cfg):
         assert len(h.conn.data_to_send(5)) == 5
         h.conn.clear_outbound_data_buffer()
         return h.conn
-    if name == "closed-by-us":
+    if name in ("closed-by-us", "closed-by-us-with-notice"):
         h = H.Solo(client, **dict(cfg))
         if client:
             ops = (h.api("send_headers", 1, H.ni(H.REQ_POST)), h.rx([wire.headers(1, sb(H.RESP))]), h.rx([wire.push_promise(1, 2, sb(H.REQ))]))
@@ -143,7 +146,10 @@ def _build_extra(client, name, cfg):
             ops = (h.rx([wire.headers(1, sb(H.REQ_POST))]),)
         for o in ops:
             assert o.kind == "ok", o.brief()
-        h.conn.close_connection()
+        if name == "closed-by-us-with-notice":
+            h.conn.close_connection(last_stream_id=2 ** 31 - 1)
+        else:
+            h.conn.close_connection()
         h.conn.data_to_send()
         return h.conn
     if name == "ended-at-limit":
